@@ -66,16 +66,23 @@ var inlineSeq int
 //go:embed baseline_fields.txt
 var baselineFieldsTxt string
 
+var baselineFieldType = map[string]string{}
+
 var baselineFields = func() map[string]bool {
 	m := map[string]bool{}
 	for _, l := range strings.Split(baselineFieldsTxt, "\n") {
 		l = strings.TrimSpace(l)
 		if l != "" && !strings.HasPrefix(l, "#") {
-			m[l] = true
+			key, typ, _ := strings.Cut(l, "\t")
+			m[key] = true
+			baselineFieldType[key] = typ
 		}
 	}
 	return m
 }()
+
+// renamedAnchors: old full name -> new full name of a function of the reference tree that was (only) renamed.
+var renamedAnchors = map[string]string{}
 
 type inliner struct {
 	fset    *token.FileSet
@@ -153,6 +160,37 @@ func flattenHelpers(pkgs []*packages.Package) (map[string][]byte, []string) {
 				in.decls[obj] = fd
 				in.declPkg[obj] = p
 				in.declFil[obj] = f
+			}
+		}
+	}
+	// renames: when exactly one function of the reference tree is missing from a receiver type (or from a package's
+	// free functions) and exactly one new function appeared there, the new one is the old one under a new name: it stays
+	// a function in its own right (the rules' anchors are redirected to it) instead of being expanded away
+	{
+		group := func(full string) string {
+			if i := strings.LastIndex(full, "."); i >= 0 {
+				return full[:i]
+			}
+			return full
+		}
+		present := map[string]bool{}
+		freshBy := map[string][]*types.Func{}
+		for obj := range in.decls {
+			present[obj.FullName()] = true
+			if !baselineFuncs[obj.FullName()] {
+				freshBy[group(obj.FullName())] = append(freshBy[group(obj.FullName())], obj)
+			}
+		}
+		missingBy := map[string][]string{}
+		for full := range baselineFuncs {
+			if !present[full] && strings.HasPrefix(strings.TrimLeft(full, "(*"), modulePath) {
+				missingBy[group(full)] = append(missingBy[group(full)], full)
+			}
+		}
+		for g, miss := range missingBy {
+			if len(miss) == 1 && len(freshBy[g]) == 1 {
+				renamedAnchors[miss[0]] = freshBy[g][0].FullName()
+				baselineFuncs[freshBy[g][0].FullName()] = true
 			}
 		}
 	}
@@ -2411,7 +2449,7 @@ func writeBaseline(pkgs []*packages.Package, path string) error {
 			}
 			if st, ok := tn.Type().Underlying().(*types.Struct); ok {
 				for i := 0; i < st.NumFields(); i++ {
-					fields = append(fields, p.PkgPath+"."+n+"."+st.Field(i).Name())
+					fields = append(fields, p.PkgPath+"."+n+"."+st.Field(i).Name()+"\t"+types.TypeString(st.Field(i).Type(), nil))
 				}
 			}
 		}
